@@ -150,14 +150,26 @@ dispatch_walltime(const struct timespec *inval, int64_t delta)
 {
 	int64_t nsec;
 	if (inval) {
-		nsec = (int64_t)_dispatch_timespec_to_nano(*inval);
+		if (os_mul_overflow((int64_t)inval->tv_sec, (int64_t)NSEC_PER_SEC,
+				&nsec) || os_add_overflow(nsec, (int64_t)inval->tv_nsec,
+				&nsec)) {
+			// not representable in nanoseconds: far future or far past
+			return inval->tv_sec < 0 ? (dispatch_time_t)-2ll :
+					DISPATCH_TIME_FOREVER;
+		}
 	} else {
 		nsec = (int64_t)_dispatch_get_nanoseconds();
 	}
-	nsec += delta;
+	if (os_add_overflow(nsec, delta, &nsec)) {
+		return delta >= 0 ? DISPATCH_TIME_FOREVER : (dispatch_time_t)-2ll;
+	}
 	if (nsec <= 1) {
 		// -1 is special == DISPATCH_TIME_FOREVER == forever
-		return delta >= 0 ? DISPATCH_TIME_FOREVER : (dispatch_time_t)-2ll;
+		return (dispatch_time_t)-2ll;
+	}
+	if (nsec >= (int64_t)DISPATCH_TIME_MAX_VALUE) {
+		// would not decode as a wall time (see shims/time.h)
+		return DISPATCH_TIME_FOREVER;
 	}
 	return (dispatch_time_t)-nsec;
 }
